@@ -237,6 +237,7 @@ def resolve(W, a):
         if 'set' in a: return set(resolve(W, x) for x in a['set'])
         if 'foreign' in a: return object()
         if 'dir' in a: return getattr(sdn, a['dir'])
+        if 'props' in a: return dict(a['props'])
     return a
 
 
@@ -325,18 +326,28 @@ class Gen:
         nm = lambda: r.choice(NAMES)
         pos = lambda: r.choice([None, None, None, 0, 1, -1])
         call = lambda recv, meth, *a, **kw: None if recv is None else {'op': 'call', 'args': [recv, meth] + list(a), **({'kw': kw} if kw else {})}
+        def props():
+            # the `properties` argument of constructors and create_* (initial user data, possibly an identifier)
+            if r.random() < 0.7: return None
+            return {'props': r.choice([{'user': 'v1'}, {'user': 'v1', 'k2': 'v2'}, {'EDIF.identifier': nm()}, {'user': 'v1', 'EDIF.identifier': nm()}, {}])}
+        def withp(rec):
+            p_ = props()
+            if rec is not None and p_ is not None: rec.setdefault('kw', {})['properties'] = p_
+            return rec
         if op == 'new':
             k = r.choice(['Netlist', 'Library', 'Definition', 'Port', 'Cable', 'Instance', 'Wire', 'InnerPin'])
-            return {'op': 'new', 'args': [k] + ([nm()] if k not in ('Wire', 'InnerPin') else [])}
-        if op == 'create_library': return call(pick('Netlist'), 'create_library', nm())
-        if op == 'create_definition': return call(pick('Library'), 'create_definition', nm())
+            if k in ('Wire', 'InnerPin'): return {'op': 'new', 'args': [k]}
+            p_ = props()
+            return {'op': 'new', 'args': [k, nm()] + ([p_] if p_ is not None else [])}
+        if op == 'create_library': return withp(call(pick('Netlist'), 'create_library', nm()))
+        if op == 'create_definition': return withp(call(pick('Library'), 'create_definition', nm()))
         if op == 'create_port':
-            return call(pick('Definition'), 'create_port', nm(), pins=r.choice([None, 0, 1, 2, 3]),
+            return withp(call(pick('Definition'), 'create_port', nm(), pins=r.choice([None, 0, 1, 2, 3]),
                         direction=r.choice([None, {'dir': 'IN'}, {'dir': 'OUT'}, {'dir': 'INOUT'}]), is_downto=r.choice([None, False]),
-                        lower_index=r.choice([None, 0, 2]))
+                        lower_index=r.choice([None, 0, 2])))
         if op == 'create_cable':
-            return call(pick('Definition'), 'create_cable', nm(), wires=r.choice([None, 0, 1, 2, 3]), lower_index=r.choice([None, 0, 1]))
-        if op == 'create_child': return call(pick('Definition'), 'create_child', nm(), reference=r.choice([None, pick('Definition')]))
+            return withp(call(pick('Definition'), 'create_cable', nm(), wires=r.choice([None, 0, 1, 2, 3]), lower_index=r.choice([None, 0, 1])))
+        if op == 'create_child': return withp(call(pick('Definition'), 'create_child', nm(), reference=r.choice([None, pick('Definition')])))
         if op == 'create_child_dup':
             d = pick('Definition', wrong=0)
             if d is None: return None
